@@ -101,7 +101,13 @@ func (a *Act) instr(st *State, b *ssa.BasicBlock, instr ssa.Instruction) {
 	case *ssa.BinOp:
 		a.binop(st, in)
 	case *ssa.MakeInterface:
-		a.setVal(in, sorts.mkVal(in.X.Type(), a.valAs(st, in.X)))
+		x := a.valAs(st, in.X)
+		if tr.typeInvMode {
+			if g := tr.typeInvFor(in.X.Type(), x, st); g != "true" {
+				a.oblige(st, "typeinv", in.Pos(), "true", g, nil)
+			}
+		}
+		a.setVal(in, sorts.mkVal(in.X.Type(), x))
 	case *ssa.ChangeInterface:
 		a.vals[in] = a.val(in.X)
 	case *ssa.ChangeType:
@@ -151,8 +157,9 @@ func (a *Act) instr(st *State, b *ssa.BasicBlock, instr ssa.Instruction) {
 		a.vals[in] = id
 		tr.eng.noteClosure(tr, cl)
 		// captured variables escape: make sure first-class addresses exist
+		localOnly := closureLocalOnly(in)
 		for _, bv := range in.Bindings {
-			if al, ok := bv.(*ssa.Alloc); ok {
+			if al, ok := bv.(*ssa.Alloc); ok && !localOnly {
 				delete(st.owned, a.prefix+al.Name())
 			}
 			if lv, ok := a.lvs[bv]; ok && lv.kind != lvCell && lv.kind != lvLocal {
@@ -625,4 +632,28 @@ func knownNonNil(v ssa.Value) bool {
 		_ = v
 	}
 	return false
+}
+
+// closureLocalOnly: the closure value is only called or deferred by the function that creates it.
+func closureLocalOnly(mc *ssa.MakeClosure) bool {
+	refs := mc.Referrers()
+	if refs == nil {
+		return false
+	}
+	for _, r := range *refs {
+		switch r := r.(type) {
+		case *ssa.Defer:
+			if r.Call.Value != ssa.Value(mc) {
+				return false
+			}
+		case *ssa.Call:
+			if r.Call.Value != ssa.Value(mc) {
+				return false
+			}
+		case *ssa.DebugRef:
+		default:
+			return false
+		}
+	}
+	return true
 }
